@@ -9,6 +9,7 @@
 //   other spaces: see c08_spaces.hpp
 #include "c08_common.hpp"
 #include "c08_ref.hpp"
+#include <array>
 using namespace xv;
 using namespace c08;
 
@@ -141,38 +142,106 @@ struct Expect {
     std::vector<std::vector<int>> words;
     std::vector<char> invalid;    // per word: 1 = the <t:e> line must carry a validity error
     size_t shallow = 0;           // number of words of length <= g_shallow_len (a prefix of `words`)
+    size_t dfa_states = 0;
     uint64_t accepted = 0, rejected_cm = 0, rejected_strict = 0, crosschecked = 0, cross_mismatch = 0, same_particle_steps = 0;
     std::string cross_word;
 };
 
-struct WState { R e; bool dead; bool strictFail; };
-
-static WState step_state(const WState& ps, int s, const std::vector<LeafInfo>& L, Expect& ex, const std::vector<int>& w) {
-    if (ps.dead) return {rx_none(), true, false};
-    std::vector<Step> steps;
-    deriv(ps.e, s, L, steps);
-    if (steps.empty()) return {rx_none(), true, false};
-    R e = steps[0].next;
-    for (size_t k = 1; k < steps.size(); k++) {
-        e = rx_alt(e, steps[k].next);
-        if (steps[k].leaf != steps[0].leaf) { ex.cross_mismatch++; ex.cross_word = "nondeterministic attribution at " + word_str(w); }
-        else ex.same_particle_steps++;
+// Lazily built deterministic automaton over the derivative states: a state is the ACI-normalised set of residual expressions
+// (sorted, de-duplicated by their serialisation), so every derivative is computed once per (state, symbol).
+static void ser(const R& e, std::string& o) {
+    switch (e->k) {
+    case Rx::NONE: o += '0'; return;
+    case Rx::EPS: o += 'e'; return;
+    case Rx::LEAF: o += 'L'; o += std::to_string(e->leaf); return;
+    case Rx::CAT: o += '('; ser(e->a, o); o += '.'; ser(e->b, o); o += ')'; return;
+    case Rx::ALT: o += '('; ser(e->a, o); o += '|'; ser(e->b, o); o += ')'; return;
+    case Rx::REP: o += '('; ser(e->a, o); o += '{'; o += std::to_string(e->min); o += ','; o += std::to_string(e->max); o += "})"; return;
+    case Rx::ALLG: o += 'A'; for (auto& m : e->members) { o += std::to_string(m.leaf); o += m.required ? '!' : '?'; } o += '#'; o += std::to_string(e->used); return;
     }
-    const LeafInfo& li = L[steps[0].leaf];
+}
+struct Dfa {
+    const std::vector<LeafInfo>* L = nullptr;
+    std::map<std::string, int> ids;
+    std::vector<std::vector<R>> alts;          // state -> alternatives
+    std::vector<char> accepting;
+    std::vector<std::array<int, NSYM>> next;   // -2 not computed, -1 dead
+    std::vector<std::array<int, NSYM>> leaf;   // consuming leaf particle of the transition
+    uint64_t multiLeaf = 0, sameParticleSteps = 0;
+    int intern(std::vector<std::pair<std::string, R>>& v) {
+        std::sort(v.begin(), v.end(), [](const std::pair<std::string, R>& a, const std::pair<std::string, R>& b) { return a.first < b.first; });
+        std::string key;
+        std::vector<R> as;
+        for (size_t i = 0; i < v.size(); i++) {
+            if (i && v[i].first == v[i - 1].first) continue;
+            key += v[i].first; key += ';';
+            as.push_back(v[i].second);
+        }
+        auto it = ids.find(key);
+        if (it != ids.end()) return it->second;
+        int id = (int)alts.size();
+        ids[key] = id;
+        bool acc = false;
+        for (auto& r : as) if (nullable(r)) acc = true;
+        alts.push_back(as); accepting.push_back(acc);
+        std::array<int, NSYM> u; u.fill(-2);
+        next.push_back(u); leaf.push_back(u);
+        return id;
+    }
+    int start(const R& root) {
+        std::vector<std::pair<std::string, R>> v;
+        std::string k; ser(root, k);
+        v.push_back({k, root});
+        return intern(v);
+    }
+    int step(int st, int s) {
+        if (st < 0) return -1;
+        if (next[st][s] != -2) return next[st][s];
+        std::vector<Step> steps;
+        for (auto& r : alts[st]) deriv(r, s, *L, steps);
+        int res = -1, lf = -1;
+        if (!steps.empty()) {
+            lf = steps[0].leaf;
+            std::vector<std::pair<std::string, R>> v;
+            for (auto& sp : steps) {
+                if (sp.leaf != lf) multiLeaf++;
+                if (sp.next->k == Rx::NONE) continue;
+                std::string k; ser(sp.next, k);
+                v.push_back({k, sp.next});
+            }
+            if (steps.size() > 1) sameParticleSteps++;
+            if (!v.empty()) res = intern(v);
+        }
+        next[st][s] = res; leaf[st][s] = lf;
+        return res;
+    }
+};
+
+struct WState { int st; bool strictFail; };
+
+static WState step_state(Dfa& D, const WState& ps, int s) {
+    if (ps.st < 0) return {-1, false};
+    int nx = D.step(ps.st, s);
+    if (nx < 0) return {-1, false};
+    const LeafInfo& li = (*D.L)[D.leaf[ps.st][s]];
     bool sf = ps.strictFail;
     // a child matched by a strict wildcard needs a global declaration: only a, b, c have one
     if (li.kind == WILD && li.term % 3 == PC_STRICT && !(s == SA || s == SB || s == SC)) sf = true;
-    return {e, e->k == Rx::NONE, sf};
+    return {nx, sf};
 }
 
 static void generate(const Particle& top, const std::vector<LeafInfo>& L, const R& root, int len, Expect& ex) {
     ex.words.clear(); ex.invalid.clear();
     ex.accepted = ex.rejected_cm = ex.rejected_strict = ex.crosschecked = 0;
     ex.len = len;
+    Dfa D; D.L = &L;
+    DenotMemo memo;
+    Particle numbered = top;
+    int nodes = number_nodes(numbered);
     std::vector<WState> st;
     auto push = [&](const std::vector<int>& w, const WState& s) {
-        bool acc = !s.dead && nullable(s.e);
-        bool acc2 = accepts_denot(top, w);   // self-validation of the oracle on every word
+        bool acc = s.st >= 0 && D.accepting[s.st];
+        bool acc2 = accepts_denot(numbered, w, memo, nodes);   // self-validation of the oracle on every word
         ex.crosschecked++;
         if (acc != acc2) { ex.cross_mismatch++; ex.cross_word = word_str(w); }
         char inv = 0;
@@ -181,32 +250,34 @@ static void generate(const Particle& top, const std::vector<LeafInfo>& L, const 
         else ex.accepted++;
         ex.words.push_back(w); ex.invalid.push_back(inv); st.push_back(s);
     };
-    push({}, {root, false, false});
+    push({}, {D.start(root), false});
     size_t head = 0;
     while (head < ex.words.size()) {
         size_t i = head++;
         int n = (int)ex.words[i].size();
         if (n >= len) continue;
-        if (n >= g_full && st[i].dead) continue;
+        if (n >= g_full && st[i].st < 0) continue;
         for (int s = 0; s < NS_ALPHA; s++) {
             std::vector<int> w = ex.words[i]; w.push_back(s);
-            WState ns = step_state(st[i], s, L, ex, w);
-            push(w, ns);
+            push(w, step_state(D, st[i], s));
         }
     }
     ex.shallow = 0;
     for (auto& w : ex.words) if ((int)w.size() <= g_shallow_len) ex.shallow++;
     // ladders beyond the enumerated length
     for (auto& unit : LADDERS) {
-        WState cur{root, false, false};
+        WState cur{D.start(root), false};
         std::vector<int> w;
         for (int n = 1; n <= LADDER_LEN; n++) {
             int s = unit[(n - 1) % unit.size()];
             w.push_back(s);
-            cur = step_state(cur, s, L, ex, w);
+            cur = step_state(D, cur, s);
             if (n > len) push(w, cur);
         }
     }
+    if (D.multiLeaf) { ex.cross_mismatch++; ex.cross_word = "attribution to two different particles in a schema classified as UPA-clean"; }
+    ex.same_particle_steps = D.sameParticleSteps;
+    ex.dfa_states = D.alts.size();
 }
 
 static void compute_expect(const Particle& top, Expect& ex) {
@@ -282,7 +353,10 @@ static void run_particle(uint64_t idx, Ctx& c) {
         std::string firstSchemaErr, strayErr;
         for (auto& e : P.r.errors) {
             ErrRec er = split_err(e);
-            if (ends_with(er.sysid, "s.xsd")) { if (er.sev != 'W') { if (!schemaErrs) firstSchemaErr = e; schemaErrs++; } continue; }
+            // errors found while traversing the schema carry the schema's system id; the checks done on the finished grammar
+            // (unique particle attribution, particle derivation) are reported at the place of the instance where the grammar was
+            // loaded: the root start tag on line 1, which is itself always valid here
+            if (ends_with(er.sysid, "s.xsd") || er.line == 1) { if (er.sev != 'W') { if (!schemaErrs) firstSchemaErr = e; schemaErrs++; } continue; }
             if (er.sev == 'W') continue;
             long w = er.line - 2;
             if (w < 0 || (size_t)w >= nwords) { if (!stray) strayErr = e; stray++; continue; }
